@@ -1,4 +1,5 @@
 pub mod args;
 pub mod filter;
+pub mod remote;
 pub mod trace;
 pub mod wire;
